@@ -8,6 +8,7 @@ import SugarModel.Spec.RefColl
 import SugarModel.Known
 import SugarModel.Generated.CommandTable
 import SugarModel.Driver.AclLines
+import SugarModel.Driver.PersistLines
 open Sugar Sugar.Driver
 
 def showVal (v : Val) : String := reprStr v
@@ -205,7 +206,7 @@ def shapeOf (t : Transition) : String :=
     | some e =>
       let tag := match e.val with
         | .nil => "nil" | .str _ => "str" | .int _ => "int" | .flt _ => "flt"
-        | .list _ => "list" | .hash _ => "hash" | .set _ _ => "set" | .zset _ _ => "zset"
+        | .list _ => "list" | .hash _ => "hash" | .set _ _ => "set" | .zset _ _ => "zset" | .ilist _ => "ilist"
       if e.expired t.ctx.now then "expired-" ++ tag else if e.exp.isSome then "ttl-" ++ tag else tag
   | _ => "nokey"
 
@@ -251,6 +252,9 @@ partial def loop (h : IO.FS.Stream) (out : IO.FS.Stream) : IO Unit := do
     loop h out
   else if line.startsWith "A " then
     out.putStrLn (aVerdict ((line.splitOn " ").filter (· ≠ "")))
+    loop h out
+  else if line.startsWith "X " then
+    out.putStrLn (verdictX line)
     loop h out
   else
   if line.startsWith "U " || line.startsWith "H " then
